@@ -118,3 +118,107 @@ def guarded_returns(fn_node, max_paths=64):
         if e is not None:
             ast.fix_missing_locations(e)
     return out
+
+
+# ---------------------------------------------------------------------------
+# canonical path sets: comparison of two value-returning definitions independent of how their branches are written
+# ---------------------------------------------------------------------------
+
+def _canon_cond(test, truth, render):
+    """one condition as (text, truth) with the four inequality spellings of one relation collapsed:
+       a < b | not a >= b | b > a | not b <= a   ->  ('<', a, b) True"""
+    test, truth = _strip_not(test, truth)
+    if isinstance(test, ast.Compare) and len(test.ops) == 1:
+        a, b = render(test.left), render(test.comparators[0])
+        op = type(test.ops[0])
+        if op is ast.Lt:
+            return ('<', a, b), truth
+        if op is ast.GtE:
+            return ('<', a, b), not truth
+        if op is ast.Gt:
+            return ('<', b, a), truth
+        if op is ast.LtE:
+            return ('<', b, a), not truth
+        if op in (ast.Eq, ast.NotEq):
+            x, y = sorted([a, b])
+            return ('==', x, y), truth if op is ast.Eq else not truth
+        if op in (ast.Is, ast.IsNot):
+            x, y = sorted([a, b])
+            return ('is', x, y), truth if op is ast.Is else not truth
+    return ('t', render(test)), truth
+
+
+def expand_properties(e, props, selfname):
+    """replace `self.<p>` by the expression a @property p of the same class returns (props: name -> (expr ast, its self name))"""
+    class X(ast.NodeTransformer):
+        def visit_Attribute(self, node):
+            self.generic_visit(node)
+            if isinstance(node.value, ast.Name) and node.value.id == selfname and node.attr in props and isinstance(node.ctx, ast.Load):
+                pe, pself = props[node.attr]
+                c = copy.deepcopy(pe)
+                if pself != selfname:
+                    for y in ast.walk(c):
+                        if isinstance(y, ast.Name) and y.id == pself:
+                            y.id = selfname
+                return c
+            return node
+    return X().visit(copy.deepcopy(e))
+
+
+def canon_paths(fn_node, props=None):
+    """frozenset of (frozenset of canonical conditions, canonical expression text) for a value-returning function, parameters renamed
+    positionally; None when the function cannot be summarised or some path returns nothing.  Contradictory paths (the same
+    condition required both ways) are dropped."""
+    gr = guarded_returns(fn_node)
+    if gr is None or any(e is None for _, e, _ in gr):
+        return None
+    params = [a.arg for a in fn_node.args.posonlyargs + fn_node.args.args + fn_node.args.kwonlyargs]
+    pmap = {p: '_p%d' % i for i, p in enumerate(params)}
+    selfname = params[0] if params else None
+
+    def render(e):
+        e = copy.deepcopy(e)
+        if props and selfname:
+            e = expand_properties(e, props, selfname)
+        # comprehension / lambda variables numbered in order of occurrence
+        local = {}
+        for x in ast.walk(e):
+            if isinstance(x, ast.Name) and isinstance(x.ctx, ast.Store) and x.id not in local:
+                local[x.id] = '_v%d' % len(local)
+            elif isinstance(x, ast.Lambda):
+                for a in x.args.args:
+                    if a.arg not in local:
+                        local[a.arg] = '_v%d' % len(local)
+        for x in ast.walk(e):
+            if isinstance(x, ast.Name):
+                x.id = local.get(x.id, pmap.get(x.id, x.id))
+            elif isinstance(x, ast.arg):
+                x.arg = local.get(x.arg, x.arg)
+        return ast.unparse(e)
+
+    out = set()
+    for conds, e, _st in gr:
+        cs = {}
+        dead = False
+        for t, tr in conds:
+            t2 = expand_properties(t, props, selfname) if props and selfname else t
+            k, v = _canon_cond(t2, tr, render)
+            if k in cs and cs[k] != v:
+                dead = True
+                break
+            cs[k] = v
+        if dead:
+            continue
+        ee = expand_properties(e, props, selfname) if props and selfname else e
+        for c2, e2 in _split_ifexp([], ee):
+            cs2 = dict(cs)
+            bad = False
+            for t, tr in c2:
+                k, v = _canon_cond(t, tr, render)
+                if k in cs2 and cs2[k] != v:
+                    bad = True
+                    break
+                cs2[k] = v
+            if not bad:
+                out.add((frozenset(cs2.items()), render(e2)))
+    return frozenset(out)
